@@ -82,6 +82,41 @@ theorem reported_complete_then_never_again (c : Cfg) : ∀ (ins : List In) (st :
     · exact ih _ x (known_only_grows_by_arrivals c st i.newP i.hasResults i.complete x hx (hn i (by simp)))
         (fun j hj => hn j (by simp [hj])) p hp' q hq
 
+/-- **every call carries every known pipeline with its current completion flag** — in particular a pipeline that has completed since the last call
+*is* reported complete at the next one (the "exactly once" of the property: `reported_complete_then_never_again` is the "at most once") -/
+theorem every_known_pipeline_is_listed_with_its_flag (c : Cfg) (st : St) (newP : List Nat) (hr : Bool) (complete : Nat → Bool) (p : Payload)
+    (h : (step c st newP hr complete).2 = some p) (x : Nat) (hx : x ∈ st.known) : (x, complete x) ∈ p.other := by
+  unfold step at h
+  split at h
+  · simp at h; subst h
+    exact List.mem_map.mpr ⟨x, hx, rfl⟩
+  · cases h
+
+/-- a pipeline stays known — through rounds without a call and through calls at which it is not complete — so it is listed again at every later call
+until the call that reports it complete -/
+theorem known_until_reported_complete (c : Cfg) (st : St) (newP : List Nat) (hr : Bool) (complete : Nat → Bool) (x : Nat)
+    (hx : x ∈ st.known) (hc : complete x = false) : x ∈ (step c st newP hr complete).1.known := by
+  unfold step
+  split
+  · simp only
+    exact List.mem_filter.mpr ⟨List.mem_append_left _ hx, by simp [hc]⟩
+  · exact hx
+
+/-- a pipeline that arrives (and is not complete on arrival) is known from then on -/
+theorem arrivals_become_known (c : Cfg) (st : St) (newP : List Nat) (hr : Bool) (complete : Nat → Bool) (x : Nat)
+    (hx : x ∈ newP) (hc : complete x = false) : x ∈ (step c st newP hr complete).1.known := by
+  unfold step
+  have hm : mustCall c st newP hr = true := by
+    unfold mustCall
+    have : newP.isEmpty = false := by cases newP with | nil => cases hx | cons a l => rfl
+    simp [this]
+  simp only [hm, ↓reduceIte]
+  apply List.mem_filter.mpr
+  refine ⟨?_, by simp [hc]⟩
+  by_cases hk : x ∈ st.known
+  · exact List.mem_append_left _ hk
+  · exact List.mem_append_right _ (List.mem_filter.mpr ⟨hx, by simpa using hk⟩)
+
 /-- **the decisions in the reply are executed exactly as given**: decoding does not alter an assignment whose operators are registered,
 and refuses one that names an unknown operator -/
 theorem decode_is_identity_or_refusal (registered : List Nat) (m : AsgMsg) :
